@@ -101,7 +101,10 @@ def gen_case(rng: random.Random, op: str, constraint: Any = "random") -> OpCase:
         if bias:
             shapes["bias"] = (fo,)
             diff.append("bias")
-        return OpCase(op, {"constraint": con(BINARY), "bias": bias}, shapes, diff)
+        cfg_ = {"constraint": con(BINARY), "bias": bias}
+        if len(lead) >= 2 and rng.random() < 0.4:
+            cfg_["input_layout"] = "permuted"
+        return OpCase(op, cfg_, shapes, diff)
     if op == "conv1d":
         groups = rng.choice([1, 1, 2, 3])
         cin_g, cout_g = rng.choice([1, 2, 3, 5]), rng.choice([1, 2, 3, 5])
@@ -210,6 +213,10 @@ def make_inputs(case: OpCase, seed: int, dtype: torch.dtype = torch.float64) -> 
         x = torch.randn(shape, generator=g, dtype=torch.float64).to(dtype)
         if case.op in ("layer_norm", "rms_norm") and name in ("weight", "bias"):
             x = x + (1.0 if name == "weight" else 0.0)
+        if case.cfg.get("input_layout") == "permuted" and name == "input" and x.dim() >= 3:
+            # same shape and values, leading dims stored in permuted order (as after a transpose / head-split permute):
+            # not mergeable by `view`
+            x = x.transpose(0, 1).contiguous().transpose(0, 1)
         t[name] = x
     cfg = case.cfg
     if case.op == "embedding":
